@@ -591,6 +591,27 @@ class AnsiString:
                     break
         return matches
 
+    def _is_stacked_in_order(self, settings:List[AnsiSetting], idx:int) -> bool:
+        '''
+        Checks the order of precedence of settings which are active right before an index
+        Parameters:
+            settings - list of AnsiSetting references to check
+            idx - the index right after the character to check at
+        Returns: True iff all given settings are active before idx and take precedence in the order given
+        '''
+        active = []
+        for sidx, _, current_settings in _AnsiSettingsIterator(self._fmts):
+            if sidx >= idx:
+                break
+            active = list(current_settings)
+        last_pos = -1
+        for setting in settings:
+            pos = __class__._find_setting_reference(setting, active)
+            if pos <= last_pos:
+                return False
+            last_pos = pos
+        return True
+
     def _slice_val_to_idx(self, val:int, default:int) -> int:
         '''
         Converts a slice start or stop value to a real index into my string
@@ -1101,6 +1122,7 @@ class AnsiString:
                     key == shift
                     and settings_add
                     and self._fmts[key].rem[:len(settings_add)] == settings_add
+                    and self._is_stacked_in_order(self._fmts[key].rem[:len(settings_add)], key)
                 ):
                     # Special case - the string being added contains same formatting as end of my string.
                     # Because the settings work based on references instead of values, the settings not only
